@@ -27,13 +27,23 @@ def load_known():
         return json.load(f).get('findings', [])
 
 
+def default_jobs():
+    """All cores, minus what is already busy (several checks are often run side by side)."""
+    n = min(16, os.cpu_count() or 4)
+    try:
+        busy = int(os.getloadavg()[0])
+    except OSError:
+        busy = 0
+    return max(3, n - busy)
+
+
 def main(argv=None):
     ap = argparse.ArgumentParser()
     ap.add_argument('check')
     ap.add_argument('--tier', default=os.environ.get('VERIF_TIER', 'quick'), choices=['quick', 'thorough'])
     ap.add_argument('--replay')
     ap.add_argument('--unit', action='append')
-    ap.add_argument('--jobs', type=int, default=int(os.environ.get('VERIF_JOBS', '0')) or min(16, os.cpu_count() or 4))
+    ap.add_argument('--jobs', type=int, default=int(os.environ.get('VERIF_JOBS', '0')) or default_jobs())
     ap.add_argument('--verbose', '-v', action='store_true')
     ap.add_argument('--no-evidence', action='store_true')
     args = ap.parse_args(argv)
@@ -53,7 +63,7 @@ def main(argv=None):
     order = sorted(units, key=lambda u: -u.weight)
     results = []
     ctx = mp.get_context('spawn')
-    with cf.ProcessPoolExecutor(max_workers=args.jobs, mp_context=ctx, max_tasks_per_child=8) as ex:
+    with cf.ProcessPoolExecutor(max_workers=args.jobs, mp_context=ctx) as ex:
         futs = {ex.submit(run_unit, modname, args.tier, u.name, seed): u for u in order}
         for fut in cf.as_completed(futs):
             u = futs[fut]
